@@ -249,6 +249,19 @@ def streams(seed, tier):
             elif r < 0.5: prog.append(lit[fam]())
             elif r < 0.6: prog.append(rng.choice([B(True), F(fbits(2.0))]))
         progs.append(case_run(rng.randrange(2), state(exec=prog, int=[0, 1], bool=[True], float=[fbits(1.0)]), 0, len(prog)))
+    # producer -> modifier -> observer, every combination: what a producer may have remembered about the vector (sortedness, a cached
+    # aggregate) must not survive the modifier
+    for fam, mkv in lit.items():
+        own = [x for x in vec if x.startswith(fam + ".")]
+        prod = [x for x in own if x.split(".")[1] in ("SORT*ASC", "SORT*DESC", "DUP", "SUM", "MEAN", "LENGTH", "COUNT")]
+        modi = [x for x in own if x.split(".")[1] in ("+", "-", "*", "/", "AND", "OR", "NOT", "ROTATE", "APPEND", "SET", "SET*INSERT", "REMOVE", "*SCALAR", "SWAP")]
+        obse = [x for x in own if x.split(".")[1] in ("CONTAINS", "GET", "SUM", "MEAN", "SORT*ASC", "SORT*DESC", "COUNT", "EQUAL", "LENGTH", "BOOLINDEX")]
+        vals = {"BOOLVECTOR": [BV([True, False, True]), BV([False, True])], "INTVECTOR": [IV([3, 1, 2]), IV([9, 0, 0])], "FLOATVECTOR": [FV([fbits(3.0), fbits(1.0), fbits(2.0)]), FV([fbits(9.0), fbits(0.0), fbits(0.0)])]}[fam]
+        for a_ in prod:
+            for b_ in modi:
+                for c_ in obse:
+                    prog = [vals[0], I(a_), vals[1], Z(0), B(True), F(fbits(2.0)), I(b_), Z(10), F(fbits(10.0)), B(False), I(c_)]
+                    progs.append(case_run(len(progs) % 2, state(exec=prog, int=[1, 2], bool=[True], float=[fbits(1.0), fbits(3.0)]), 0, len(prog)))
     out.append(Stream("family-programs", "run", "run.check", progs,
                       "random sequences of 3..6 instructions of ONE vector family (sort, then element-wise arithmetic, then a search, ...) with literals in between, executed step by step"))
     # the same call twice with one instruction set: what the dispatch closure of an instruction may remember must not matter
